@@ -73,16 +73,16 @@ type (
 		redir  string // "" | "stdout"
 	}
 	sEmitF  struct{ items []expr }
-	sTee    struct{}          // tee > stdout, $*
-	sFilter struct{ e expr }  // filter e
-	sBare   struct{ e expr }  // bare boolean
+	sTee    struct{}         // tee > stdout, $*
+	sFilter struct{ e expr } // filter e
+	sBare   struct{ e expr } // bare boolean
 	sIf     struct {
 		conds  []expr
 		blocks [][]stmt
 		els    []stmt
 		hasEls bool
 	}
-	sCond  struct {
+	sCond struct {
 		c    expr
 		body []stmt
 	}
@@ -150,9 +150,9 @@ func lit(x any) expr {
 	}
 	panic("lit")
 }
-func loc(n string) expr           { return eLocal{n} }
-func fld(n string) expr           { return eField{n} }
-func oos(n string) expr           { return eOos{n} }
+func loc(n string) expr             { return eLocal{n} }
+func fld(n string) expr             { return eField{n} }
+func oos(n string) expr             { return eOos{n} }
 func bin(op string, l, r expr) expr { return eBin{op, l, r} }
 func idx(b expr, is ...expr) expr {
 	for _, i := range is {
@@ -169,11 +169,11 @@ func mapLit(kvs ...expr) expr {
 	}
 	return m
 }
-func arrLit(es ...expr) expr    { return eArrLit{es} }
-func asg(l, r expr) stmt        { return sAssign{lhs: l, rhs: r} }
-func decl(t, n string, r expr) stmt { return sAssign{typ: t, lhs: eLocal{n}, rhs: r} }
+func arrLit(es ...expr) expr               { return eArrLit{es} }
+func asg(l, r expr) stmt                   { return sAssign{lhs: l, rhs: r} }
+func decl(t, n string, r expr) stmt        { return sAssign{typ: t, lhs: eLocal{n}, rhs: r} }
 func opasg(l expr, op string, r expr) stmt { return sAssign{lhs: l, op: op, rhs: r} }
-func pr(es ...expr) stmt        { return sPrint{args: es} }
+func pr(es ...expr) stmt                   { return sPrint{args: es} }
 
 // ---------------------------------------------------------------- precedence table (documented)
 
@@ -236,6 +236,7 @@ func (u *unparser) w(s string) { u.sb.WriteString(s) }
 
 func (u *unparser) exprP(e expr, paren bool) {
 	if paren {
+		u.hit("Parenthesized")
 		u.w("(")
 		u.expr(e)
 		u.w(")")
@@ -267,6 +268,7 @@ func (u *unparser) expr(e expr) {
 			if i > 0 {
 				u.w(", ")
 			}
+			u.hit("MapLiteralKeyValuePair")
 			u.expr(t.keys[i])
 			u.w(": ")
 			u.expr(t.vals[i])
